@@ -266,3 +266,20 @@ PROPS["C07"] = {
         {"name": "c07.managers", "engine": "rapid", "quick": R(4, 1500), "thorough": R(8, 60000)},
     ],
 }
+
+PROPS["C03"] = {
+    "binary": "c03_framing",
+    "seeds": True,
+    "level": "exploration",
+    "technique": "differential property-based testing (rapidcheck) over real loopback sockets with a harness-owned read schedule: chunked delivery vs. single-read delivery of the same generated stream; exhaustive 2-way splits per stream",
+    "level_text": ("Generated streams (5 header shapes incl. XML declaration / leading newline / non-ASCII id; 1-12 stanzas from the repository's tests and from hard text with 2-, 3- and 4-byte characters, entities and quotes in text and attribute values; whitespace keep-alives; optional </stream:stream>) "
+                   "are written to a real XmppSocket through a loopback TCP connection chunk by chunk, the next chunk only after the receiver consumed the previous one; every 2-way split of each small stream, random k-way splits biased into tags/attribute values/entities/multi-byte characters and one-byte-at-a-time delivery "
+                   "must produce exactly the event sequence (stream-open start tag, canonical stanzas, stream-close) of the single-read run."),
+    "level_note": "Trusted: the loopback transport delivering each flushed chunk as one read (checked: the harness counts bytesAvailable at every readyRead and waits for equality; a stalled delivery is reported as inconclusive, never as a violation). The keep-alive notification (stanzaReceived with a null element) is not a stanza and is filtered. Headers with a raw '>' in an attribute value and bytes after </stream:stream> are outside the domain.",
+    "rule": "Non-trivial: at least one cut strictly inside a tag, an attribute value, an entity or a multi-byte character. Distinct = (stream bytes, partition mode).",
+    "assumptions": ["the peer sends a valid XMPP stream"],
+    "subs": [
+        {"name": "c03.split2", "engine": "rapid", "quick": R(8, 60), "thorough": R(16, 3000)},
+        {"name": "c03.random", "engine": "rapid", "quick": R(6, 2500), "thorough": R(16, 60000)},
+    ],
+}
